@@ -717,3 +717,126 @@ T('k18_mw_listing_in_classmethod', ['C18'], (META, GMI, '''def get_mw_infos(_app
 '''))
 T('k18_main_template_class_constant', ['C18'], (META, "        self._main_page_render = self._arf('meta_base.html')", "        self._main_page_render = self._arf(self.main_template_name)"),
   (META, "class MetaApplication(Application):\n", "class MetaApplication(Application):\n    main_template_name = 'meta_base.html'\n\n"))
+
+
+# ---- fourth pass -------------------------------------------------------------------------------------------------------
+# R18.a: the defaults mapping handed to a small class (constructor argument -> field -> read in the methods)
+GRAI_FULL = '''def get_route_arg_info(route):
+    fb = get_fb(route.endpoint)
+    r_args = fb.args
+    r_defaults = fb.get_defaults_dict()
+''' + GRAI
+
+_SRC_CLASS = '''class _SourceOf(object):
+    LOOKUPS = (('builtin', 'in_builtins'), ('url', 'in_path'), ('resources', 'in_resources'),
+               ('middleware', 'in_middlewares'), ('default', 'in_defaults'))
+
+    def __init__(self, route, defaults):
+        self.route = route
+        self.known_defaults = defaults
+
+    def in_builtins(self, arg):
+        return arg in RESERVED_ARGS
+
+    def in_path(self, arg):
+        return arg in self.route.path_args
+
+    def in_resources(self, arg):
+        return arg in self.route.resources
+
+    def in_middlewares(self, arg):
+        return any(arg in mw.provides for mw in self.route.middlewares)
+
+    def in_defaults(self, arg):
+        return arg in self.known_defaults
+
+    def __call__(self, arg):
+        for label, meth in self.LOOKUPS:
+            if getattr(self, meth)(arg):
+                return label
+        return None
+
+    def row(self, arg):
+        return {'name': arg, 'source': self(arg)}
+
+
+def get_route_arg_info(route):
+    fb = get_fb(route.endpoint)
+    source_of = _SourceOf(route, defaults=fb.get_defaults_dict())
+    return [source_of.row(arg) for arg in fb.args]
+'''
+T('k18_defaults_in_object_field', ['C18'], (META, GRAI_FULL, _SRC_CLASS))
+T('k18_defaults_in_object_field_copy', ['C18'], (META, GRAI_FULL, _SRC_CLASS.replace('self.known_defaults = defaults', 'self.known_defaults = dict(defaults or {})')))
+B('k18_object_field_value_read', ['C18'], 'R18.a', (META, GRAI_FULL, _SRC_CLASS.replace(
+    "        return {'name': arg, 'source': self(arg)}", "        return {'name': arg, 'source': self(arg), 'default': self.known_defaults.get(arg)}")))
+B('k18_object_field_read_outside', ['C18'], 'R18.a', (META, GRAI_FULL, _SRC_CLASS.replace(
+    "    return [source_of.row(arg) for arg in fb.args]", "    return [dict(source_of.row(arg), defaults=source_of.known_defaults) for arg in fb.args]")))
+B('k18_object_with_defaults_escapes', ['C18'], 'R18.a', (META, GRAI_FULL, _SRC_CLASS.replace(
+    "    return [source_of.row(arg) for arg in fb.args]", "    return [source_of.row(arg) for arg in fb.args] + [{'name': '*', 'source': source_of}]")))
+B('k18_object_field_by_table_getattr', ['C18'], 'R18.a', (META, GRAI_FULL, _SRC_CLASS.replace(
+    "        return {'name': arg, 'source': self(arg)}",
+    "        return {'name': arg, 'source': self(arg), 'known': [getattr(self, f) for f in ('route', 'known_defaults')]}")))
+B('k18_object_instance_dict', ['C18'], 'R18.a', (META, GRAI_FULL, _SRC_CLASS.replace(
+    "        return {'name': arg, 'source': self(arg)}", "        return dict(vars(self), name=arg, source=self(arg))")))
+
+# R18.e: textual representations of objects of the tree / what the views call on host objects
+_APP_REPR = '''        ret = ('<%s routes_count=%s resources_keys=%r middlewares=%r render_factory=%r slash_mode=%r debug=%r>'
+               % (cn, len(self.routes), list(self.resources.keys()), self.middlewares,
+                  self.render_factory, self.slash_mode, self.debug))
+'''
+_APP_REPR_DEF = "    def __repr__(self):\n        cn = self.__class__.__name__\n" + _APP_REPR + "        return ret\n"
+B('k18e_repr_prints_resources', ['C18'], 'R18.e', (A, _APP_REPR, '''        ret = ('<%s routes_count=%s resources=%r middlewares=%r render_factory=%r slash_mode=%r debug=%r>'
+               % (cn, len(self.routes), self.resources, self.middlewares,
+                  self.render_factory, self.slash_mode, self.debug))
+'''))
+B('k18e_repr_prints_sorted_items', ['C18'], 'R18.e', (A, 'list(self.resources.keys()), self.middlewares,', 'sorted(self.resources.items()), self.middlewares,'))
+B('k18e_repr_prints_values_fstring', ['C18'], 'R18.e', (A, _APP_REPR, "        ret = f'<{cn} routes_count={len(self.routes)} resources={list(self.resources.values())!r}>'\n"))
+B('k18e_repr_format_method', ['C18'], 'R18.e', (A, _APP_REPR, "        ret = '<{0} routes_count={1} resources={2!r}>'.format(cn, len(self.routes), dict(self.resources))\n"))
+B('k18e_str_prints_resources', ['C18'], 'R18.e', (A, _APP_REPR_DEF, _APP_REPR_DEF + '''
+    def __str__(self):
+        return '%s with resources %s' % (self.__class__.__name__, self.resources)
+'''))
+B('k18e_repr_via_helper_method', ['C18'], 'R18.e', (A, _APP_REPR_DEF, '''    def _summary(self):
+        return {'routes_count': len(self.routes), 'resources': self.resources, 'debug': self.debug}
+
+    def __repr__(self):
+        return '<%s %r>' % (self.__class__.__name__, self._summary())
+'''))
+B('k18e_repr_instance_dict', ['C18'], 'R18.e', (A, _APP_REPR, "        ret = '<%s %r>' % (cn, vars(self))\n"))
+B('k18e_repr_dunder_dict', ['C18'], 'R18.e', (A, _APP_REPR, "        ret = '<%s %s>' % (cn, ', '.join('%s=%r' % kv for kv in sorted(self.__dict__.items())))\n"))
+B('k18e_repr_aliased_field', ['C18'], 'R18.e', (A, "        self.resources = dict(resources or {})\n", "        self.resources = dict(resources or {})\n        self._injectables = self.resources\n"),
+  (A, 'list(self.resources.keys()), self.middlewares,', 'self._injectables, self.middlewares,'))
+B('k18e_bound_route_repr_resources', ['C18'], 'R18.e', (R, "        return '<%s route=%r bound_app=%r>' % (cn, self.unbound_route, self.bound_apps[-1])",
+                                                          "        return '<%s route=%r resources=%r>' % (cn, self.unbound_route, self.resources)"))
+B('k18e_attrs_repr_field', ['C18'], 'R18.e', (A, "    wsgi_app = attr.ib()\n", "    wsgi_app = attr.ib()\n    resources = attr.ib(default=None)\n"))
+B('k18e_attrs_repr_secret_field', ['C18'], 'R18.e', (A, "    wsgi_app = attr.ib()\n", "    wsgi_app = attr.ib()\n    secret_key = attr.ib(default=None)\n"))
+B('k18e_nonmw_repr_key_material', ['C18'], 'R18.e', (A, "        return '<%s exceptions=%r allowed_methods=%r>' % args",
+                                                      "        return '<%s exceptions=%r allowed_methods=%r key=%r>' % (args + (self.signing_key,))"))
+B('k18e_view_calls_describe', ['C18'], 'R18.e', (A, _APP_REPR_DEF, _APP_REPR_DEF + '''
+    def describe(self):
+        return {'type': self.__class__.__name__, 'resources': dict(self.resources), 'debug': self.debug}
+'''), (META, "        ret.append({'key': key, 'value': trunc_val})\n    return ret\n",
+       "        ret.append({'key': key, 'value': trunc_val})\n    ret.append({'key': '(application)', 'value': _trunc(repr(_application.describe()))})\n    return ret\n"))
+B('k18e_view_reads_vars', ['C18'], 'R18.e', (META, "    app = _application\n    ret = []\n", "    app = _application\n    ret = [{'url_pattern': '(application)', 'args': sorted(vars(app).items())}]\n"))
+B('k18e_view_reads_dunder_dict', ['C18'], 'R18.e', (META, "        r_info['url_pattern'] = r.pattern\n", "        r_info['url_pattern'] = r.pattern\n        r_info['attrs'] = _trunc(repr(r.__dict__))\n"))
+B('k18e_view_dynamic_getattr', ['C18'], 'R18.e', (META, "        r_info['url_pattern'] = r.pattern\n",
+                                                   "        r_info['url_pattern'] = r.pattern\n        r_info['attrs'] = dict((a, repr(getattr(r, a))) for a in dir(r))\n"))
+T('k18e_repr_names_sorted', ['C18'], (A, 'list(self.resources.keys()), self.middlewares,', 'sorted(self.resources), self.middlewares,'))
+T('k18e_repr_names_joined_and_count', ['C18'], (A, _APP_REPR, '''        ret = ('<%s routes_count=%s resources_count=%s resources_keys=[%s] middlewares=%r debug=%r>'
+               % (cn, len(self.routes), len(self.resources), ', '.join(self.resources), self.middlewares, self.debug))
+'''))
+T('k18e_str_names_only', ['C18'], (A, _APP_REPR_DEF, _APP_REPR_DEF + '''
+    def __str__(self):
+        return '%s (%d routes, resources: %s)' % (self.__class__.__name__, len(self.routes), ', '.join(sorted(self.resources.keys())))
+'''))
+T('k18e_repr_redacting_items', ['C18'], (A, 'list(self.resources.keys()), self.middlewares,',
+                                         "[(k, '[REDACTED]' if 'secret' in k else type(v).__name__) for k, v in self.resources.items()], self.middlewares,"))
+T('k18e_attrs_field_not_printed', ['C18'], (A, "    wsgi_app = attr.ib()\n", "    wsgi_app = attr.ib()\n    resources = attr.ib(default=None, repr=False)\n"))
+T('k18e_view_calls_names_method', ['C18'], (A, _APP_REPR_DEF, _APP_REPR_DEF + '''
+    def describe(self):
+        return {'type': self.__class__.__name__, 'resource_names': sorted(self.resources), 'route_count': len(self.routes)}
+'''), (META, "        ret.append({'key': key, 'value': trunc_val})\n    return ret\n",
+       "        ret.append({'key': key, 'value': trunc_val})\n    ret.append({'key': '(application)', 'value': _trunc(repr(_application.describe()))})\n    return ret\n"))
+T('k18e_view_constant_table_getattr', ['C18'], (META, "        r_info['url_pattern'] = r.pattern\n",
+                                                 "        for a in ('pattern', 'methods'):\n            r_info['route_' + a] = repr(getattr(r, a))\n        r_info['url_pattern'] = r.pattern\n"))
+T('k18e_repr_dict_of_plain_record', ['C18'], (A, "        return '<%s exceptions=%r allowed_methods=%r>' % args", "        return '<%s %r>' % (self.__class__.__name__, vars(self))"))
